@@ -697,6 +697,22 @@ def R4c_pair_loaders(run):
             ok = ok and not cfg.success_reach(fn, ne_side, cut_blocks=[at.block, upper_block])
         run.check("R4c", "pair-load@" + label, ok, "%s: loads are %s; expected load_tick_array_mut(lower, whirlpool)? and, unless both accounts are the same, load_tick_array_mut(upper, whirlpool)?" % (path, sides),
                   loc=fn.loc(), detail="lower? ; upper? unless same key")
+    # the swap sequence builder's per-account loader: an initialised account is loaded through load_tick_array_mut with this
+    # pool's key and every error of the loader (foreign pool, wrong owner, wrong discriminator) is the builder's error; only an
+    # empty system-owned account is "not there"
+    ml = facts.need_fn("util::sparse_swap::maybe_load_tick_array")
+    run.touch(ml)
+    cs = calls_to(ml, ends("load_tick_array_mut"))
+    ok = len(cs) == 1 and (arg_name(cs[0][2][0]) in ("account_info",) or is_param(cs[0][2][0], ml.param_names()[0])) and \
+        mentions(cs[0][2][1], lambda t: t[0] == "param" and t[1] == ml.param_names()[1]) and bool(cfg.result_checked(ml, cs[0][0]))
+    run.check("R4c", "sequence-loader-propagates", ok, "maybe_load_tick_array does not hand every error of load_tick_array_mut(account, pool key) to its caller "
+              "(an account of another pool would be skipped instead of rejected)", loc=ml.loc(), detail="load_tick_array_mut(account_info, &whirlpool.key())?")
+    none_ok = False
+    for at in A.atoms(ml):
+        s_ = show(at.term, True)
+        if "data_is_empty" in s_ or "owner" in s_:
+            none_ok = True
+    run.check("R4c", "sequence-loader-empty-only", none_ok, "maybe_load_tick_array no longer distinguishes the empty system-owned account", loc=ml.loc(), detail="Ok(None) only for an empty system account")
 
 
 RULES = [R4c_pair_loaders, R1_token_accounts, R3_back_references, R4_loaders_and_unchecked, R5_pinocchio_superset, R5b_remaining_accounts]
